@@ -11,7 +11,7 @@ from .. import runcheck, monitors, problems
 
 
 def run(ctx):
-    bdir, A = runcheck.setup(ctx, ["Wrap:memo_returns|wrappers_pass|rejected|zero_dim|ill_posed", "C01:elimdim"] + runcheck.drv("returned_pair|stopval|ret_codes"))
+    bdir, A = runcheck.setup(ctx, ["Wrap:memo_returns|wrappers_pass|rejected|zero_dim|ill_posed", "C01:elimdim"] + runcheck.drv("returned_pair|stopval|ret_codes|^t3_|^T3$|^t5_|^T5$"))
     if bdir:
         rng, ps = runcheck.gen(ctx, A, 6000 if ctx.thorough else 1500)
         for nm in problems.ALL:
